@@ -21,6 +21,8 @@ func runC15(c *Ctx) {
 	R.Rule("C15.R4", "sanitize does not look at the concrete reader: the reader parameter is only handed to html.NewTokenizer")
 	R.Rule("C15.R5", "the command-line tools build the documented policy and write exactly p.Sanitize(string(stdin)) to stdout")
 	R.Assume(TrustGo, "independence from how the reader splits the data is the refill logic of html.Tokenizer (outside the repository) and is NOT decided")
+	R.Rule("C15.R6", "the rules applied do not depend on iteration order (= C17.R5, cited): where the rules of several matching patterns are merged for one call each update is m[k] = append(m[k], rules...) — an overwrite would make the surviving rule depend on the map iteration order, so two calls (or two entry points) disagree")
+	mergesAccumulate(c, "C15.R6")
 	c15Funnel(c)
 	c15Buffer(c)
 	c15Adapter(c)
